@@ -77,3 +77,48 @@ def expectedLines (s : Settings) (call : Call) (codes : List Nat) (activeLine : 
   | .disconnect graceful => if graceful then [str "QUIT"] else []
 
 end Ftp.Spec
+
+namespace Ftp.Spec
+
+/-- login with a TLS context: after the credentials were accepted, PBSZ 0 and PROT P (each must be answered
+    non-negatively), then TYPE -/
+def loginLinesTls (s : Settings) (user pass : Bytes) (codes : List Nat) : List Bytes :=
+  let tail (rest : List Nat) : List Bytes :=
+    -- rest: codes of the replies after the one that accepted the credentials
+    str "PBSZ 0" :: (match rest with
+      | [] => []
+      | c :: rest' => if negative c then [] else
+        str "PROT P" :: (match rest' with
+          | [] => []
+          | c' :: _ => if negative c' then [] else [typeLine s]))
+  match codes with
+  | [] => [line "USER" (some user)]
+  | c1 :: rest =>
+    if c1 = 331 then
+      line "USER" (some user) :: line "PASS" (some pass) ::
+        (match rest with
+         | [] => []
+         | c2 :: rest' => if negative c2 then [] else tail rest')
+    else if negative c1 then [line "USER" (some user)]
+    else line "USER" (some user) :: tail rest
+
+/-- connect with a TLS context: greeting (an optional 120 first), AUTH TLS, and - after a non-negative answer and a
+    successful handshake - the login sequence -/
+def connectLinesTls (s : Settings) (cred : Option (Bytes × Bytes)) (codes : List Nat) (handshakeOk : Bool) : List Bytes :=
+  let afterGreeting := match codes with
+    | 120 :: g :: rest => some (g, rest)
+    | g :: rest => some (g, rest)
+    | [] => none
+  match afterGreeting with
+  | none => []
+  | some (g, rest) =>
+    if negative g then []
+    else str "AUTH TLS" :: (match rest with
+      | [] => []
+      | a :: rest' =>
+        if negative a || !handshakeOk then []
+        else match cred with
+          | some (u, p) => loginLinesTls s u p rest'
+          | none => [])
+
+end Ftp.Spec
